@@ -697,6 +697,11 @@ func (a *Application) transformStreamAndWaitForProxy(
 	// transform stream (blocks until done)
 	transformErr := trans.TransformStreamingResponse(ctx, pipeReader, w, r)
 
+	// whatever made the translator stop (end of stream, an error, an oversized line), nobody
+	// reads the pipe any more: close it, so that the proxy goroutine cannot block for ever in a
+	// write and the wait below always ends
+	_ = pipeReader.Close()
+
 	// Wait for proxy to complete
 	proxyErr := <-proxyErrChan
 
